@@ -51,6 +51,8 @@ CASES = {
     "int_floor_mod": [(7, 2), (-7, 2), (7, -2), (-7, -2), (0, 3), (5, 0)],
     "seq_eq": [([1], [1]), ([1], [1, 1]), ([], [1]), ([2], [3])],
     "str_index_loop_free": [("ab",), ("a",), ("",), ("xyz",)],
+    "dict_comp_keys": [(["a", "b"], True), ([], True), (["a", "a"], False)],
+    "dict_display_merge": [({"a": 1}, "a"), ({"a": 1}, "b"), ({}, "z")],
 }
 
 # sidecar types of locals the executor cannot infer (same role as `locals=` in a contract)
